@@ -2,7 +2,8 @@
    form does not read back to it.  W_plain is an oracle under which no token is a number; the texts
    contain no numeric token. *)
 From HyV Require Import Print.Syntax Print.Names Print.Reader Print.ModelRepr Print.TableOracle Print.ReaderFacts
-     Print.StringFacts Print.AtomFacts Print.SugarFacts Print.RoundTrip Print.ModelTheorems.
+     Print.StringFacts Print.AtomFacts Print.SugarFacts Print.FStringFacts Print.FString Print.FStringRead Print.FStrRepr
+     Print.RoundTrip Print.ModelTheorems.
 From Coq Require Import String.
 
 Definition W_plain : oracle := table_oracle [] [] [] [] [].
@@ -47,6 +48,16 @@ Proof. refute "rf""\N{{x}}"""%string. Qed.
 Lemma unquote_dotted_at : exists m, readable W_plain m /\ ~ repr_roundtrips W_plain m.
 Proof. refute "(unquote @a.b)"%string. Qed.
 
+(* #[f[{a CR = }]f] : the text kept for the debugging = holds a carriage return, which a bracket f-string prints raw *)
+Lemma bracket_fstring_cr : exists m, readable W_plain m /\ ~ repr_roundtrips W_plain m.
+Proof.
+  set (src := tx "#[f[{a" ++ [c_cr] ++ tx "= }]f]").
+  exists (match read_one W_plain src with ROne m _ => m | _ => MSym [] end). split.
+  - apply (readable_by_reading W_plain src). vm_compute. reflexivity.
+  - eapply (refute_by_reading W_plain); [vm_compute; reflexivity|discriminate|].
+    intros r E H. first [discriminate E | (injection E as <-; vm_compute in H; discriminate)].
+Qed.
+
 (* an object that meets the hypotheses of the round trip: '(a 'b #[x[hi]x] x.y) for any oracle under which
    a, b, x, y and x.y are not numbers *)
 Definition m_example : model :=
@@ -72,4 +83,23 @@ Proof.
   - apply Forall_cons; [|apply Forall_cons; [|constructor]]; (split; [discriminate|split; [reflexivity|split; [reflexivity|assumption]]]).
   - intros _. split; [cbn; auto|split; [discriminate|reflexivity]].
   - exact Hxy.
+Qed.
+
+(* ... and by the f-string  f"a{x !r :{w}}"  (a conversion and a nested format spec) *)
+Definition m_fexample : model :=
+  MNode (KFStr None false)
+        [MStr [97] None; MNode (KFComp (Some 114) false) [MSym [120]; MNode (KFComp None false) [MSym [119]]]].
+
+Lemma example_fstr_ok W : num W [120] = NotNum -> num W [119] = NotNum -> ok W m_fexample.
+Proof.
+  intros Hx Hw.
+  assert (S1 : forall c, num W [c] = NotNum -> ident_char c = true -> dispatch c = DDefault -> c <> ch_dot -> sym_ok W [c]).
+  { intros c Hn Hi Hd Hne. split; [split; [cbn [forallb]; rewrite Hi; reflexivity|exact Hd]|].
+    split; [exact Hn|left]. unfold mem. cbn [existsb]. rewrite orb_false_r. apply N.eqb_neq. congruence. }
+  unfold m_fexample. apply OkFStr.
+  - apply Forall_cons; [apply FcStr; [discriminate|repeat constructor|reflexivity]|].
+    apply Forall_cons; [|constructor].
+    apply FcField; [apply OkSym, S1; try assumption; try reflexivity; discriminate|reflexivity|].
+    apply SpField. apply FcField; [apply OkSym, S1; try assumption; try reflexivity; discriminate|reflexivity|apply SpNone].
+  - cbn [fseq_ok]. split; [reflexivity|exact I].
 Qed.
